@@ -13,7 +13,7 @@ RULE = ('Hypothesis base configurations (all econ models x end-uses, reservoir m
         'cost made explicit so production does not depend on cost - either through the totals or through every component '
         '(equipment costs of heat pump / chiller sometimes left to the simulator) - then metamorphic pairs: (a) all cost '
         'inputs (+ electricity purchase rate / peaking fuel rate) x k => every levelized cost x k, energy unchanged; '
-        '(b) sale prices changed only => levelized costs identical and NPV strictly follows the price when energy is sold; '
+        '(b) sale prices changed only (start/end scaled, or only the escalation rate raised) => levelized costs identical and NPV strictly follows the price when energy is sold (judged on the energy series, not on the revenue); '
         '(c) direct-use heat, efficiency halved => LCOH doubled; (d) an all-zero add-on, an explicit zero ITC rate, an '
         'explicit zero grant => every core economic result identical. Non-trivial = accepted pair with k outside '
         '[0.99,1.01] / price change >= 1 % / energy sold > 0; distinct by parameter set and relation.')
@@ -50,7 +50,7 @@ def cases(draw, tier):
     labels = list(base.get('labels', []))
     sl = [l for l in labels if l.startswith(('elec', 'heat', 'chiller', 'district', 'cogen'))]
     surface = sl[0] if sl else ''
-    relation = draw(st.sampled_from(['scale', 'scale', 'price', 'efficiency', 'neutral']))
+    relation = draw(st.sampled_from(['scale', 'scale', 'price', 'efficiency', 'neutral', 'escalation']))
     cost = []
     use_totals = (draw(st.integers(0, 2)) == 0 and surface != 'heatpump') or surface in ('district', 'chiller')
     if use_totals:
@@ -85,6 +85,10 @@ def cases(draw, tier):
         case['scaled'] = scalable
     elif relation == 'price':
         case['price_factor'] = draw(st.one_of(gen.nice_floats(0.2, 5), st.sampled_from([0.5, 2.0])))
+    elif relation == 'escalation':
+        r0 = draw(st.one_of(st.just(0.0), gen.nice_floats(0, 0.004)))
+        case['escalation'] = {'start_year': draw(st.one_of(st.integers(0, 6), st.integers(0, 45))), 'rate0': r0,
+                              'rate1': r0 + draw(gen.nice_floats(0.0002, 0.008))}
     elif relation == 'efficiency':
         params = gen.merge(gen.drop_param(params, 'Power Plant Type'), [['End-Use Option', '2'],
                            ['End-Use Efficiency Factor', gen.fmt(draw(gen.nice_floats(0.2, 1.0)))]])
@@ -184,13 +188,80 @@ def evaluate(case, rec):
             sum(float(x) for x in e0['CoolingRevenue'].value)
         rev1 = sum(float(x) for x in e1['ElecRevenue'].value) + sum(float(x) for x in e1['HeatRevenue'].value) + \
             sum(float(x) for x in e1['CoolingRevenue'].value)
-        sold_positive = all(float(x) >= 0 for nme in ('ElecRevenue', 'HeatRevenue', 'CoolingRevenue') for x in e0[nme].value) and rev0 > 0
+        # "the energy sold is positive": judged on the energy series of the products this configuration sells (not on the
+        # revenue, which is what a defect would zero), at a positive price that the pair actually changes
+        sp0 = s0['surfaceplant']
+        chg = dict((a, float(b)) for a, b in changed)
+
+        def ser(nm):
+            v = sp0[nm].value if nm in sp0 else []
+            return [float(x) for x in v] if hasattr(v, '__len__') else [float(v)]
+        products = []
+        if enduse != 2:
+            products.append(('Electricity', ser('NetkWhProduced')))
+        if enduse != 1 and plant != 5:
+            products.append(('Heat', ser('HeatkWhProduced')))
+        if plant == 5:
+            products.append(('Cooling', ser('cooling_kWh_Produced')))
+        none_negative = all(x >= 0 for _, sr in products for x in sr) and \
+            all(float(x) >= 0 for nme in ('ElecRevenue', 'HeatRevenue', 'CoolingRevenue') for x in e0[nme].value)
+        priced = [prod for prod, sr in products if sum(sr) > 0 and
+                  max(chg.get(f'Starting {prod} Sale Price', 0.0), chg.get(f'Ending {prod} Sale Price', 0.0)) > 0]
+        sold_positive = none_negative and (bool(priced) or rev0 > 0)
         npv0, npv1 = float(e0['ProjectNPV'].value), float(e1['ProjectNPV'].value)
         if sold_positive and abs(f - 1) >= 0.01 and finite(npv0) and finite(npv1):
             if (f > 1 and not npv1 > npv0) or (f < 1 and not npv1 < npv0):
-                bad('npv_does_not_follow_price', {'price_factor': f, 'npv_base': npv0, 'npv_other': npv1, 'revenue_base': rev0, 'revenue_other': rev1})
+                bad('npv_does_not_follow_price', {'price_factor': f, 'npv_base': npv0, 'npv_other': npv1, 'revenue_base': rev0, 'revenue_other': rev1,
+                                                  'products_with_energy_and_price': priced})
             nt = True
         labels.append('energy_sold>0' if sold_positive else 'no_positive_sales')
+    elif rel == 'escalation':
+        # only the escalation rate of the sale prices is raised (same start year, ending price high enough not to bind at once):
+        # by the documented schedule no year's price falls, so NPV must not fall, and must rise when a year with energy sold
+        # gets a strictly higher price
+        esc = case['escalation']
+        pd = dict((a, b) for a, b in params)
+        L = int(s0['surfaceplant']['plant_lifetime'].value)
+        sp0 = s0['surfaceplant']
+
+        def ser(nm):
+            v = sp0[nm].value if nm in sp0 else []
+            return [float(x) for x in v] if hasattr(v, '__len__') else [float(v)]
+        products = []
+        if enduse != 2:
+            products.append(('Electricity', 0.055, ser('NetkWhProduced')))
+        if enduse != 1 and plant != 5:
+            products.append(('Heat', 0.025, ser('HeatkWhProduced')))
+        if plant == 5:
+            products.append(('Cooling', 0.025, ser('cooling_kWh_Produced')))
+        blocks = {0: [], 1: []}
+        strictly = False
+        for prod, dflt, sr in products:
+            start = float(pd.get(f'Starting {prod} Sale Price', dflt))
+            end = min(100.0, max(float(pd.get(f'Ending {prod} Sale Price', dflt)), start * 2 + 0.02))
+            for j, r in ((0, esc['rate0']), (1, esc['rate1'])):
+                blocks[j] += [[f'Starting {prod} Sale Price', gen.fmt(start)], [f'Ending {prod} Sale Price', gen.fmt(end)],
+                              [f'{prod} Escalation Start Year', str(esc['start_year'])], [f'{prod} Escalation Rate Per Year', gen.fmt(r)]]
+            price = lambda i, r: min(start + max(0, i - esc['start_year']) * r, end)
+            if len(sr) == L and any(price(i, esc['rate1']) > price(i, esc['rate0']) and sr[i] > 0 for i in range(L)):
+                strictly = True
+        none_negative = all(x >= 0 for _, _, sr in products for x in sr)
+        sa, sb = _run(gen.merge(params, blocks[0])), _run(gen.merge(params, blocks[1]))
+        if sa is None or sb is None:
+            rec.case(case, nontrivial=False, labels=labels + ['rejected_escalation_pair'])
+            return
+        ea, eb = sa['economics'], sb['economics']
+        for n in ('LCOE', 'LCOH', 'LCOC'):
+            a, b = float(ea[n].value), float(eb[n].value)
+            if finite(a) and finite(b) and a != b:
+                bad('levelized_cost_depends_on_sale_price', {'which': n, 'base': a, 'other_price_run': b, 'escalation': esc}, which=n)
+        npva, npvb = float(ea['ProjectNPV'].value), float(eb['ProjectNPV'].value)
+        if none_negative and finite(npva) and finite(npvb):
+            if npvb < npva or (strictly and not npvb > npva):
+                bad('npv_does_not_follow_price', {'escalation': esc, 'npv_lower_rate': npva, 'npv_higher_rate': npvb,
+                                                  'some_year_with_energy_gets_higher_price': strictly, 'lifetime': L}, via='escalation_rate')
+            nt = strictly
+        labels.append('escalation_strict' if strictly else 'escalation_no_effect_expected')
     elif rel == 'efficiency':
         pd = dict((a, b) for a, b in params)
         eta = float(pd['End-Use Efficiency Factor'])
